@@ -77,15 +77,66 @@ def locals_in(c, out=None):
 
 # ------------------------------------------------------------------ event linearisation
 
+def subst_hir(node, mapping, shift):
+    """copy of a HIR subtree with parameter references replaced by the caller's argument expressions and all
+    other local ids shifted (so that the callee's locals cannot collide with the caller's)"""
+    if isinstance(node, list):
+        return [subst_hir(x, mapping, shift) for x in node]
+    if not isinstance(node, dict):
+        return node
+    if node.get('k') == 'path' and node.get('res') == 'local':
+        if node.get('id') in mapping:
+            return mapping[node['id']]
+        n2 = dict(node)
+        n2['id'] = node['id'] + shift
+        return n2
+    out = {}
+    for k, v in node.items():
+        if k == 'id' and node.get('k') == 'bind':
+            out[k] = v + shift
+        else:
+            out[k] = subst_hir(v, mapping, shift) if isinstance(v, (dict, list)) else v
+    return out
+
+
 class Events:
-    """Pre-order linearisation of a fn body: statement-level events with nesting paths."""
+    """Pre-order linearisation of a fn body: statement-level events with nesting paths.  Calls of private
+    statement-like helpers (crate fns returning (), not trait methods) are expanded in place, parameters
+    replaced by the caller's argument expressions, so that extracting a loop into a helper changes nothing."""
 
     def __init__(self, fn):
         self.fn = fn
+        self.facts = fn.facts
         self.events = []    # dict(kind, node, path, order, env, cond_depth)
         self.order = 0
         self.env = {}
+        self.inline_depth = 0
         self._block(fn.hir['value'], (), 0)
+
+    def _try_inline(self, n, p, nest):
+        if self.inline_depth >= 2:
+            return False
+        path = None
+        args = None
+        if n.get('k') == 'call' and n['f'].get('k') == 'path':
+            path, args = n['f'].get('path'), list(n['args'])
+        elif n.get('k') == 'mcall':
+            path, args = n.get('path'), [n['recv']] + list(n['args'])
+        g = self.facts.fns.get(path) if path else None
+        if g is None or g.impl_trait or g.in_trait or g.output not in ('()', None) or g.path == self.fn.path:
+            return False
+        if g.reachable:
+            return False        # public functions are contracts of their own (zero, copy_within, ...)
+        params = g.hir.get('params', [])
+        if len(params) != len(args) or not all(pt.get('k') == 'bind' for pt in params):
+            return False
+        self.inline_depth += 1
+        shift = 100000 * self.inline_depth + 1000 * (self.order % 90)
+        mapping = {pt['id']: a for pt, a in zip(params, args)}
+        body = subst_hir(g.hir['value'], mapping, shift)
+        self._block(body, p, nest, flat=True)
+        self.inline_depth -= 1
+        return True
 
     def _emit(self, kind, node, path, nest, **kw):
         self.order += 1
@@ -93,15 +144,16 @@ class Events:
         d.update(kw)
         self.events.append(d)
 
-    def _block(self, b, path, nest):
+    def _block(self, b, path, nest, flat=False):
+        """flat: the statements of an inlined helper stand at the position of the call statement itself"""
         b = core.strip_refs(b)
         if b.get('k') != 'block':
-            self._expr_stmt(b, path + (0,), nest)
+            self._expr_stmt(b, path if flat else path + (0,), nest)
             return
         bid = id(b)
         i = 0
         for s in b.get('stmts', []):
-            p = path + ((bid, i),)
+            p = path if flat else path + ((bid, i),)
             if s['k'] == 'let':
                 if 'init' in s:
                     self._scan(s['init'], p, nest)
@@ -114,7 +166,7 @@ class Events:
                 self._expr_stmt(s['e'], p, nest)
             i += 1
         if b.get('tail') is not None:
-            self._expr_stmt(b['tail'], path + ((bid, i),), nest)
+            self._expr_stmt(b['tail'], path if flat else path + ((bid, i),), nest)
 
     def _expr_stmt(self, e, p, nest):
         e0 = core.strip_refs(e)
@@ -151,6 +203,8 @@ class Events:
         def visit(n, parents):
             k = n.get('k')
             if k in ('mcall', 'call'):
+                if self._try_inline(n, p, nest):
+                    return False
                 self._emit('call', n, p, nest)
             elif k in ('assign', 'assignop'):
                 self._emit('assign', n, p, nest, target=hcanon(n['l'], {}))
